@@ -166,5 +166,9 @@ func C15Cases(tier string, seed int64) []Case {
 			func(e Env[*symalg.G, *symalg.F]) { c15ECDSASignature(e, v) },
 			func(e Env[*k256.Point, *k256.Scalar]) { c15ECDSASignature(e, v) }))
 	}
+	for _, c := range C15BLSCases(tier) {
+		c.MustReach = append(c.MustReach, "bls-done")
+		cases = append(cases, c)
+	}
 	return cases
 }
